@@ -8,7 +8,6 @@ G = importlib.util.module_from_spec(_s)
 _s.loader.exec_module(G)
 
 META = {
-    "disabled": True,
     "level": "model_checking",
     "text": "An implementation-shaped TLA+ model of the 12 GJKR states (per-member IA/DQ views, evidence log, qualified shares, "
             "stored points, expected reconstructions; symbolic adversary controlling every field of every message of up to t "
